@@ -699,14 +699,15 @@ func (g *gen) genSpec(k int) *ModSpec {
 	}
 
 	// ---- excluded classes (open findings; see check.json and the dedicated tests) ----
-	// findDangle: a module with a start function never stores one of its own functions into an
-	// imported funcref global (if the start function traps, nothing keeps the instance alive).
+	// findDangle: a module with a start function never stores a function reference it creates (to
+	// an own or to an imported function) into an imported funcref global: if the start function
+	// traps, nothing keeps the instance, hence the reference, alive.
 	if s.Start != nil {
 		fix := func(ops []Op) {
 			for i := range ops {
-				if o := &ops[i]; o.K == "gsetf" && int(o.A) < v.nIG && int(o.C) > v.nIF {
-					o.C = int64(g.n(0, v.nIF, "own-function-replaced"))
-					evid.Label("excluded:own-function-into-imported-funcref-global-of-module-with-start", 1)
+				if o := &ops[i]; o.K == "gsetf" && int(o.A) < v.nIG && o.C != 0 {
+					o.C = 0 // null
+					evid.Label("excluded:new-reference-into-imported-funcref-global-of-module-with-start", 1)
 				}
 			}
 		}
